@@ -333,6 +333,10 @@ class Parametrized(Box):
 
     def subs(self, *args):
         data = rsubs(self.data, *args)
+        if not getattr(data, "free_symbols", True):
+            # A sympy number: numpy functions cannot evaluate it.
+            data = complex(data)
+            data = data.real if not data.imag else data
         return type(self)(data)
 
     def lambdify(self, *symbols, **kwargs):
